@@ -503,6 +503,8 @@ def panel_configs_structured(verif_seed, tier="quick"):
     for name, rec in [("kron-equal-8", {"k": "kron", "args": [G(8), G(8)]}),
                       ("kron-products-8", {"k": "kron", "args": [{"k": "product", "args": [G(8), G(8)]}, {"k": "product", "args": [G(8), G(8)]}]}),
 ]:  # (no BlockDiag / Sum here: their rules DO hand Auto to the 8 x 8 parts, where tol 0.04 sometimes stops early)
+        if tier != "thorough" and name != "kron-products-8":
+            continue
         for what in ("diag", "trace") if tier == "thorough" else ("diag", ):
             out.append({"via": "dispatch", "alg": "Auto", "what": what, "name": name + "/auto", "recipe": rec, "k": 0, "rand": "normal",
                         "max_iters": 4, "tol": 0.04, "K": 16384 if tier == "thorough" else 8192})
